@@ -24,7 +24,8 @@ CONSTANTS Conns,                \* e.g. {"A", "B", "G"}
           Block,                \* slots added when the cache grows
           MaxSend,              \* bound on what a peer sends
           Dev_ReclaimOnEmpty,   \* deviation: alloc takes slots from the freeable queue when the free list is empty
-          Dev_QueueBeforeReset  \* deviation: freeable queues the slot before it has waited for the token and reset it
+          Dev_QueueBeforeReset, \* deviation: freeable queues the slot before it has waited for the token and reset it
+          Dev_FreeAtHandlerStart \* deviation: the queue is moved back to the free list when the handler starts a batch, not after it
 
 VARIABLES slot,    \* [1..MaxSlot -> [st, owner (whose fields are set; "" after reset), det (detached counter > 0)]]
           named,   \* number of slots named so far
@@ -33,7 +34,7 @@ VARIABLES slot,    \* [1..MaxSlot -> [st, owner (whose fields are set; "" after 
           pend,    \* the freeable queue (operatorCache.freelist)
           u,       \* [Conns -> [pc, s (slot), reg (registered with epoll), open (descriptor open)]]
           k,       \* [Conns -> [pending (unread bytes in the socket), sent, peerClosed]]
-          P,       \* poller: [pc, batch (seq of [c, s, hup]), i, hups (seq of owners whose OnHup was queued)]
+          P,       \* poller (the real Wait loop): [pc, msec (timeout of the next epoll_wait), batch (seq of [c, s, hup]), i, hups (owners whose OnHup was queued)]
           H,       \* hang-up tasks started and not yet run: seq of seq of owners
           got,     \* [Conns -> bytes its OnRead received]
           torn,    \* conns whose OnHup ran
@@ -46,11 +47,11 @@ NoSlot == [st |-> 0, owner |-> "", det |-> FALSE]
 Init == /\ slot = [i \in 1 .. MaxSlot |-> NoSlot] /\ named = 0 /\ supply = Supply /\ ret = <<>> /\ pend = <<>>
         /\ u = [c \in Conns |-> [pc |-> "u_start", s |-> 0, reg |-> FALSE, open |-> FALSE]]
         /\ k = [c \in Conns |-> [pending |-> 0, sent |-> 0, peerClosed |-> FALSE]]
-        /\ P = [pc |-> "p_wait", batch |-> <<>>, i |-> 0, hups |-> <<>>]
+        /\ P = [pc |-> "p_wait", msec |-> -1, batch |-> <<>>, i |-> 0, hups |-> <<>>]
         /\ H = <<>> /\ got = [c \in Conns |-> 0] /\ torn = {} /\ bad = {}
 
 Reverse(s) == [j \in 1 .. Len(s) |-> s[Len(s) + 1 - j]]
-InBatch(s) == P.pc # "p_wait" /\ \E j \in P.i .. Len(P.batch) : j >= 1 /\ P.batch[j].s = s
+InBatch(s) == P.pc # "p_wait" /\ P.i >= 1 /\ \E j \in P.i .. Len(P.batch) : j >= 1 /\ P.batch[j].s = s
 
 \* ---- users ------------------------------------------------------------------------------------
 \* operatorCache.alloc: top of the free list; a fresh slot; a new block; (deviation) the freeable queue
@@ -119,11 +120,20 @@ Ready(c) == u[c].reg /\ u[c].open /\ (k[c].pending > 0 \/ k[c].peerClosed)
 RECURSIVE Perms(_)
 Perms(S) == IF S = {} THEN {<<>>} ELSE UNION {{<<x>> \o p : p \in Perms(S \ {x})} : x \in S}
 
-\* epoll_wait: one event per ready registered descriptor, each carrying the slot it was registered with
-PWait == /\ P.pc = "p_wait" /\ \E c \in Conns : Ready(c)
-         /\ \E order \in Perms({c \in Conns : Ready(c)}) :
-              P' = [P EXCEPT !.pc = "p_ev", !.i = 1, !.batch = [j \in 1 .. Len(order) |-> [c |-> order[j], s |-> u[order[j]].s, hup |-> k[order[j]].peerClosed]]]
+\* epoll_wait (hook 46): one event per ready registered descriptor, each carrying the slot it was registered with; after a batch the
+\* loop polls once more without blocking (msec = 0) and only then blocks (msec = -1); then the point between fetch and handler (hook 54)
+PWait == /\ P.pc = "p_wait"
+         /\ IF \E c \in Conns : Ready(c)
+            THEN \E order \in Perms({c \in Conns : Ready(c)}) :
+                   P' = [P EXCEPT !.pc = "p_fetched", !.msec = 0, !.i = 1,
+                                  !.batch = [j \in 1 .. Len(order) |-> [c |-> order[j], s |-> u[order[j]].s, hup |-> k[order[j]].peerClosed]]]
+            ELSE P.msec = 0 /\ P' = [P EXCEPT !.msec = -1]
          /\ UNCHANGED <<slot, named, supply, ret, pend, u, k, H, got, torn, bad>>
+
+\* the handler starts (its first event: hook 42)
+PFetched == /\ P.pc = "p_fetched" /\ P' = [P EXCEPT !.pc = "p_ev"]
+            /\ IF Dev_FreeAtHandlerStart THEN ret' = Reverse(pend) \o ret /\ pend' = <<>> ELSE UNCHANGED <<ret, pend>>
+            /\ UNCHANGED <<slot, named, supply, u, k, H, got, torn, bad>>
 
 \* handler: next event (hook 42) -> operator.do() (hook 10)
 PEv == /\ P.pc = "p_ev" /\ P' = [P EXCEPT !.pc = "p_do"]
@@ -133,7 +143,7 @@ PEv == /\ P.pc = "p_ev" /\ P' = [P EXCEPT !.pc = "p_do"]
 EndBatch(PP) ==
     /\ P' = [PP EXCEPT !.pc = "p_wait", !.batch = <<>>, !.i = 0, !.hups = <<>>]
     /\ H' = IF PP.hups # <<>> THEN Append(H, PP.hups) ELSE H
-    /\ ret' = Reverse(pend) \o ret /\ pend' = <<>>
+    /\ IF Dev_FreeAtHandlerStart THEN UNCHANGED <<ret, pend>> ELSE ret' = Reverse(pend) \o ret /\ pend' = <<>>
 NextEvent(PP) == IF PP.i < Len(PP.batch) THEN /\ P' = [PP EXCEPT !.pc = "p_ev", !.i = @ + 1] /\ UNCHANGED <<H, ret, pend>>
                  ELSE EndBatch(PP)
 
@@ -180,13 +190,13 @@ PeerClose(c) == /\ u[c].open /\ ~k[c].peerClosed /\ k' = [k EXCEPT ![c].peerClos
                 /\ UNCHANGED <<slot, named, supply, ret, pend, u, P, H, got, torn, bad>>
 
 UserNext(c) == UStart(c) \/ UCtl(c) \/ UInuse(c) \/ UIdle(c) \/ UDet(c) \/ UUnused(c)
-PollerNext == PWait \/ PEv \/ PDo \/ PDet \/ PDone
+PollerNext == PWait \/ PFetched \/ PEv \/ PDo \/ PDet \/ PDone
 Next == (\E c \in Conns : UserNext(c) \/ PeerSend(c) \/ PeerClose(c)) \/ PollerNext \/ HRun
 Spec == Init /\ [][Next]_vars
 
 UPt(c) == CASE u[c].pc = "u_start" -> 1000 [] u[c].pc \in {"u_ctl", "u_det"} -> 14 [] u[c].pc \in {"u_inuse", "u_inuse_spin"} -> 12
             [] u[c].pc = "u_idle" -> 1002 [] u[c].pc \in {"u_unused", "u_unused_spin"} -> 13 [] OTHER -> 0
-PPt == CASE P.pc = "p_wait" -> 1001 [] P.pc = "p_ev" -> 42 [] P.pc = "p_do" -> 10 [] P.pc = "p_det" -> 14 [] P.pc = "p_done" -> 11 [] OTHER -> 0
+PPt == CASE P.pc = "p_wait" -> 46 [] P.pc = "p_fetched" -> 54 [] P.pc = "p_ev" -> 42 [] P.pc = "p_do" -> 10 [] P.pc = "p_det" -> 14 [] P.pc = "p_done" -> 11 [] OTHER -> 0
 
 \* ---- properties ---------------------------------------------------------------------------------------
 TypeOK == named \in 0 .. MaxSlot /\ \A i \in 1 .. MaxSlot : slot[i].st \in 0 .. 2
